@@ -74,6 +74,17 @@ def codepoint_sweep(ctx):
         yield 'a' + ch + ' b;' + ch + '\n e' + ch + ' ' + ch
 
 
+# --- second pass: long scripts (a front end that works block-wise / statement-wise on large inputs must still hand back every character) ------------
+def long_inputs(ctx):
+    for n in [4096, 8192, 65536] + ([] if ctx.quick() else [1 << 20]):
+        pad = 'a' * n
+        yield "select '" + pad + ";\n;' from t;\nselect 2;\n\n  select 3"            # `;` + line end inside a literal, no final terminator
+        yield 'select 1 /* ' + pad + ';\n */ ;\n-- ' + pad + ';\nselect 3;\n'
+        yield 'create procedure p() begin\nselect "' + pad + '";\nselect 2;\nend;\nselect 4;  \n'
+        yield 'select ' + pad + '\n;\n\n;\r\n;select 2'
+    yield 'select a, b from t where x = 1;\n' * 300 + 'select 9'                     # token-dense, 9600 characters, last statement unterminated
+
+
 def run(ctx):
     ins = [c['input'] for c in streams.corpus('C02')] + inputs(ctx, ctx.n(2500, 50000), ctx.n(500, 10000))
     nb = 0
@@ -83,6 +94,9 @@ def run(ctx):
     for s in codepoint_sweep(ctx):
         oracle(ctx, s)
         nb += 1
+    for s in long_inputs(ctx):
+        oracle(ctx, s)
+        ctx.count('long_input')
     ctx.count('boundary/code-point sweeps', nb)
     for s in ins:
         oracle(ctx, s)
